@@ -634,6 +634,15 @@ pub fn issue_op(c: &mut Commands, op: Op, cmd: CmdId, top: bool)
             record(issued);
             c.queue(marker(cmd));
         }
+        Op::DropSignal(e) =>
+        {
+            record(issued);
+            c.queue(marker(cmd));
+            c.queue(move |_w: &mut World| {
+                let sig = with_ctx(|x| x.signals.get_mut(e as usize).and_then(|s| s.take()));
+                drop(sig);
+            });
+        }
     }
 }
 
@@ -830,6 +839,14 @@ fn run_program(cfg: &Arc<Config>)
     {
         let (c, p) = with_ctx(|x| (x.ents[*child as usize], x.ents[*parent as usize]));
         app.world_mut().entity_mut(p).add_child(c);
+    }
+    // auto-despawn signals held by the harness
+    with_ctx(|x| x.signals = (0..cfg.n_ents).map(|_| None).collect());
+    for e in cfg.auto_ents.iter()
+    {
+        let ent = with_ctx(|x| x.ents[*e as usize]);
+        let sig = app.world().resource::<AutoDespawner>().prepare(ent);
+        with_ctx(|x| x.signals[*e as usize] = Some(sig));
     }
     // actors
     for (i, v) in cfg.actors.iter().enumerate()
